@@ -48,9 +48,9 @@ func pTree(shape int) any {
 	case 7:
 		return []any{[]any{pLeaf("a"), pLeaf("b")}, []any{pLeaf("c"), pLeaf("d")}, []any{}}
 	case 11:
-		// rows of an aligned table whose second key has a symbolic printable
-		// byte: it may need quotes in SEN (raw order and printed order differ)
-		k := string([]byte{'b', vx.ByteIn("key", 0x20, 0x7e)})
+		// rows of an aligned table whose second key may need quotes in SEN (raw
+		// order and printed order differ)
+		k := [...]string{"b ", "bc", "b:", "b\""}[vx.Choose("key", 4)]
 		return []any{map[string]any{"a": pLeaf("a"), k: pLeaf("b")}, map[string]any{"a": pLeaf("c"), k: pLeaf("d")}}
 	case 9, 10:
 		// two leaves at the nesting depths where the indentation reaches the
@@ -78,7 +78,7 @@ func VerifPretty() {
 	depth := 1 + vx.Choose("depth", 3)
 	align := vx.Choose("align", 2) == 1
 	asSEN := vx.Choose("sen", 2) == 1
-	if shape >= 9 && (width != pWidths[0] || depth != 1) {
+	if (shape == 9 || shape == 10) && (width != pWidths[0] || depth != 1) {
 		vx.Assume(false) // the deep shapes are costly: one width and depth setting
 	}
 	v := pTree(shape)
